@@ -19,20 +19,31 @@ PROPS = {
                  "model tied to the Go code by bit-exact differential run.",
  },
  "C13": {
-  "modules": ["OsmoVerif.Props.C13"],
-  "min_theorems": 20,
+  "modules": ["OsmoVerif.Props.C13", "OsmoVerif.Props.C13SigFig", "OsmoVerif.Props.C13Log", "OsmoVerif.Props.C13Exp2"],
+  "min_theorems": 64,
   "fingerprints": ["Osmomath.MonotonicSqrt*", "Osmomath.SigFigRound", "Osmomath.Exp2", "Osmomath.exp2ChebyshevRationalApprox",
                    "Osmomath.BigDec_LogBase2", "Osmomath.Pow", "Osmomath.PowApprox", "Osmomath.AbsDifferenceWithSign",
                    "Osmomath.BinarySearch*", "Osmomath.ErrTolerance_*"],
   "engines": [{"name": "math", "kind": "pure", "n": {"quick": 12000, "thorough": 150000}, "shards": {"quick": 4, "thorough": 16}}],
   "rule": "edge values (0, 1 ulp, 1, 2, 2-ulp, 512, 512+ulp, powers of two +-1 ulp, perfect squares +-1, sig-fig ties) and "
           "log-uniform random points per function; non-trivial = positive argument; distinct = distinct op lines",
-  "trusted_base": ["700-bit big.Float reference series (harness/cmd/pure/bigfloat.go) for the analytic error bounds",
-                   "cosmossdk.io/math LegacyDec.Power/ApproxSqrt (modelled)"],
-  "assumptions": ["PARTIAL: the continuum error bounds of Exp2 (rel 1e-18), LogBase2 (abs 1e-32), Pow (powPrecision) and the SigFigRound half-unit bound "
-                  "are NOT theorems; they are decided by the engine's oracle against 700-bit references on the sampled points only",
-                  "proved for all inputs: monotone sqrt least-ness + monotonicity, domain guards, Exp2 integer exactness/split, binary-search postconditions"],
-  "explanation": "theorems over the bit-exact model for the discrete clauses; the model is tied to the Go code by differential run (incl. 300-iteration log and 150000-iteration power series)",
+  "trusted_base": ["700-bit big.Float reference series (harness/cmd/pure/bigfloat.go) for the analytic error bounds that remain unproved (Exp2 approximant, Pow)",
+                   "cosmossdk.io/math LegacyDec.Power/ApproxSqrt (modelled)",
+                   "Mathlib real analysis (Real.logb, Real.log, Real.rpow) as the meaning of the true values in Props/C13Log and Props/C13Exp2"],
+  "assumptions": ["PARTIAL: NOT theorems: (b) the analytic accuracy of the Exp2 rational approximant |P(X)/Q(X) - 2^X| <= eps0 on [0,1] (explicit hypothesis of "
+                  "exp2_rel_error_partial; needs certified interval arithmetic) and the Pow/PowApprox precision (findings F9, F10 show it is false in part); both are decided by "
+                  "the engine's oracle against 700-bit references on the sampled points only",
+                  "the 36-digit accuracy of the coded base-change constants logOfEbase2 (log2 e) and tickLogOf2 (log2 1.0001) is an explicit term of ln_abs_error / "
+                  "tickLog_abs_error, not a theorem",
+                  "proved for all inputs: SigFigRound (half-unit bound sharp for 10^s, +1 ulp truncation for general t, grid form, idempotence s>=1, monotonicity for 10|t, "
+                  "exact success condition; witnesses: not monotone/idempotent for t=1 or t not a multiple of ten); LogBase2 |error| <= 89e-36 (documented 1e-32), monotone, total; "
+                  "Ln/TickLog/CustomBaseLog error = base-2 error scaled by the base change + half an ulp, Ln/TickLog monotone; Exp2 rounding error <= 70e-36 against the exact "
+                  "rational function, Exp2 NOT monotone in the last digits (witness); monotone sqrt least-ness + monotonicity, domain guards, Exp2 integer exactness/split, "
+                  "binary-search postconditions"],
+  "explanation": "theorems over the bit-exact model: discrete clauses by integer arithmetic; LogBase2 and derived logs by a real-valued (Mathlib) error analysis of the 300-iteration "
+                 "squaring loop (invariant y/10^36 + 2^-i log2(x_i), per-step perturbation scaled by 2^-(i+1), truncated bit weights bounded by a potential); Exp2 rounding analysis against "
+                 "the exact rational function with the approximant's analytic accuracy as an explicit hypothesis; the model is tied to the Go code by differential run "
+                 "(incl. 300-iteration log and 150000-iteration power series)",
  },
  "C14": {
   "modules": ["OsmoVerif.Props.C14", "OsmoVerif.Props.C14Mono", "OsmoVerif.Props.C14RoundTrip"],
